@@ -330,6 +330,39 @@ theorem fftfreq_neg_odd (n : ℕ) (hodd : n % 2 = 1) (u : ℤ) :
 /-- evenness of a real transfer function under index negation modulo the shape (`K(−f) = K(f)`: Hermitian, being real) -/
 def KerEven (k : Arr ℝ) (m n : ℕ) : Prop := ∀ u v : ℤ, k.get ((-u) % m) ((-v) % n) = k.get (u % m) (v % n)
 
+/-- on any axis the frequency index at the negated sample index is the negated one, or (at the unpaired Nyquist sample of an
+even axis) the same one -/
+theorem fftfreqIdx_neg_any (n : ℕ) (hn : 0 < n) (u : ℤ) :
+    fftfreqIdx n ((-u) % n) = -fftfreqIdx n (u % n) ∨ fftfreqIdx n ((-u) % n) = fftfreqIdx n (u % n) := by
+  have hn' : (0 : ℤ) < n := by exact_mod_cast hn
+  have hw0 := Int.emod_nonneg u (ne_of_gt hn')
+  have hw1 := Int.emod_lt_of_pos u hn'
+  rw [neg_emod_cases n hn u]
+  unfold fftfreqIdx
+  split_ifs <;> omega
+
+theorem fftfreq_neg_any (n : ℕ) (hn : 0 < n) (u : ℤ) :
+    (fftfreq n ((-u) % n) : ℝ) = -fftfreq n (u % n) ∨ (fftfreq n ((-u) % n) : ℝ) = fftfreq n (u % n) := by
+  unfold fftfreq
+  rcases fftfreqIdx_neg_any n hn u with h | h
+  · left; rw [h]; simp [RealLike.ofInt, neg_div]
+  · right; rw [h]
+
+/-- the pixel transfer function is Hermitian on every shape (sinc is even in each frequency separately) -/
+theorem pixelKernel_even_any (m n : ℕ) (hm : 0 < m) (hn : 0 < n) (os : ℝ) : KerEven (pixelKernel m n os) m n := by
+  intro u v
+  simp only [pixelKernel, Gen.bwPixelKernel, BlurLike.sinc]
+  rcases fftfreq_neg_any m hm u with h1 | h1 <;> rcases fftfreq_neg_any n hn v with h2 | h2 <;>
+    simp only [h1, h2, neg_mul, mul_neg, Real.sinc_neg]
+
+/-- the jitter transfer function is Hermitian on every shape (it depends on `f_x² + f_y²` only) -/
+theorem jitterKernel_even_any (m n : ℕ) (hm : 0 < m) (hn : 0 < n) (scale ps os : ℝ) :
+    KerEven (jitterKernel m n scale ps os) m n := by
+  intro u v
+  simp only [jitterKernel, Gen.bwJitterKernel]
+  rcases fftfreq_neg_any m hm u with h1 | h1 <;> rcases fftfreq_neg_any n hn v with h2 | h2 <;>
+    simp only [h1, h2, neg_mul_neg]
+
 theorem pixelKernel_even (m n : ℕ) (hm : m % 2 = 1) (hn : n % 2 = 1) (os : ℝ) : KerEven (pixelKernel m n os) m n := by
   intro u v
   simp only [pixelKernel, Gen.bwPixelKernel, fftfreq_neg_odd m hm, fftfreq_neg_odd n hn, BlurLike.sinc, neg_mul, mul_neg,
